@@ -14,7 +14,9 @@ Transcribed from (snapshot ef0888e + fix commits):
                      Collect return ErrAborted (random select against a free slot), Close of an aborted edge fails
   * stream.go / edge/consumer.go   Emit one message, hand it to the receiver, Collect it into the child edge
   * influxdb_out.go  Point → write → writeBuffer.enqueue (select queue<- / <-stopping), writeBuffer.run
-                     (queue → buffer, write at size B, flush request, ticker, stopping), stopOut = flush(); abort()
+                     (queue → buffer, write at size B, flush request, ticker, stopping); flush(); abort() by the
+                     deferred stopBuffer of runOut since repair 4fb4805 (`Cfg.influxEarlyAbort` = the code before:
+                     stopOut = flush(); abort() called by ExecutingTask.stop)
   * alert.go / alert/topics.go  runAlert: registerDeleteHookForTask, consume (event → bufHandler.Handle,
                      non-blocking, queue of H events), then CloseTopic (bufHandler.Close: close(events), wait
                      for the handler goroutine to drain) — also on the error path since repair d61e6a5
@@ -101,6 +103,7 @@ structure Env where
   hookLock : Bool        -- registerDeleteHookForTask takes tm.mu (code before repair 97356b1)
   alertLeak : Bool       -- a failed alert node returns without CloseTopic (code before repair d61e6a5)
   barrierGuard : Bool    -- the barrier timers use Edge.CollectUnlessClosed (repair e30c0fb)
+  influxEarlyAbort : Bool -- influxDBOut flushes+aborts its write buffer in stop() (code before repair 4fb4805)
   tmLockFree : Bool      -- tm.mu is neither held for writing nor for reading
   ingestSpace : Bool     -- the write_points edge has a free slot
   writesClosed : Bool    -- TaskMaster.writesClosed
@@ -116,9 +119,10 @@ def closeIn (c : Nd) : Nd := if c.inAborted then c else { c with inClosed := tru
 
 /-- runF returns normally: the input edge is closed and drained (alert: and CloseTopic has returned;
 udf: or the UDF was aborted). -/
-def exitOk (nd : Nd) : Bool :=
+def exitOk (env : Env) (nd : Nd) : Bool :=
   match nd.kind with
   | .alert _ => nd.hand = 0 ∧ nd.inq = 0 ∧ nd.inClosed ∧ nd.helperDone
+  | .influx _ => nd.hand = 0 ∧ nd.inq = 0 ∧ nd.inClosed ∧ (env.influxEarlyAbort ∨ nd.helperDone)
   | .udf => (nd.hand = 0 ∧ ((nd.inq = 0 ∧ nd.inClosed) ∨ nd.stopping)) ∨ (nd.stopping ∧ nd.fwdDead)
   | _ => nd.hand = 0 ∧ nd.inq = 0 ∧ nd.inClosed
 
@@ -126,6 +130,7 @@ def exitOk (nd : Nd) : Bool :=
 def exitFailedOk (env : Env) (nd : Nd) : Bool :=
   match nd.kind with
   | .alert _ => env.alertLeak ∨ nd.helperDone
+  | .influx _ => env.influxEarlyAbort ∨ nd.helperDone
   | _ => true
 
 /-- One action of node `nd` whose child (next node in the chain) is `child`. -/
@@ -205,6 +210,10 @@ def nodeStep (env : Env) (a : NAct) (nd : Nd) (child : Option Nd) : Option NRes 
     | .alert _ =>
       if !nd.done ∧ ((nd.hand = 0 ∧ nd.inq = 0 ∧ nd.inClosed ∧ !nd.failed) ∨ (nd.failed ∧ !env.alertLeak)) ∧ nd.inited ∧ !nd.stopping then
         some ⟨{ nd with stopping := true }, child, false⟩ else none
+    | .influx _ =>
+      -- the deferred stopBuffer of runOut (repaired code): flush() then abort() closes w.stopping
+      if !env.influxEarlyAbort ∧ !nd.done ∧ ((nd.hand = 0 ∧ nd.inq = 0 ∧ nd.inClosed ∧ !nd.failed) ∨ nd.failed) ∧ !nd.stopping then
+        some ⟨{ nd with deliv := nd.deliv + nd.buf, buf := 0, stopping := true }, child, false⟩ else none
     | _ => none
   | .exit =>
     -- (the barrier node's deferred stopBarrierEmitter stops and joins its timers on both paths)
@@ -212,7 +221,7 @@ def nodeStep (env : Env) (a : NAct) (nd : Nd) (child : Option Nd) : Option NRes 
     else if nd.failed then
       if exitFailedOk env nd then
         some ⟨{ nd with done := true, inAborted := true, helperDone := nd.helperDone || isBarrier nd.kind }, child.map closeIn, false⟩ else none
-    else if exitOk nd then
+    else if exitOk env nd then
       -- (an aborted UDF whose forwarding goroutine is gone drops the message it still holds)
       some ⟨{ nd with done := true, hand := 0, dropped := nd.dropped + nd.hand, helperDone := nd.helperDone || isBarrier nd.kind }, child.map closeIn, false⟩
     else none
@@ -265,6 +274,8 @@ structure Cfg where
   hookLock : Bool        -- AlertNode registers its delete hook under tm.mu (true = code before repair 97356b1)
   alertLeak : Bool       -- a failed AlertNode does not close its topic (true = code before repair d61e6a5)
   barrierGuard : Bool := true  -- barrier timers guard their send into the input edge (false = code before repair e30c0fb)
+  influxEarlyAbort : Bool := false -- influxDBOut.stop() = flush()+abort() (true = code before repair 4fb4805; since then the
+                                   -- deferred stopBuffer of runOut does it when the input has been consumed)
   deriving DecidableEq, Repr, Inhabited
 
 structure State where
@@ -313,7 +324,7 @@ def Ph.wantsLock : Ph → Bool
 def afterWait (n i : Nat) : Ph := if i + 1 < n then .stopF (i + 1) else .wgWait
 
 def env (cfg : Cfg) (s : State) : Env :=
-  { cap := cfg.cap, hookLock := cfg.hookLock, alertLeak := cfg.alertLeak, barrierGuard := cfg.barrierGuard, tmLockFree := !s.lockHeld ∧ !s.forkRL,
+  { cap := cfg.cap, hookLock := cfg.hookLock, alertLeak := cfg.alertLeak, barrierGuard := cfg.barrierGuard, influxEarlyAbort := cfg.influxEarlyAbort, tmLockFree := !s.lockHeld ∧ !s.forkRL,
     ingestSpace := s.ingest + s.ingestL < cfg.cap, writesClosed := s.ingestClosed }
 
 /-- The stopping goroutine. -/
@@ -331,8 +342,9 @@ def stopStep (cfg : Cfg) (s : State) : Option State :=
     | some nd =>
       match nd.kind with
       | .influx _ =>
+        if !cfg.influxEarlyAbort then some { s with ph := .wait i }   -- repaired code: no stop function
         -- flush(): needs writeBuffer.run in its select; writeAll; acknowledgement
-        if nd.helperDone then none
+        else if nd.helperDone then none
         else some { s with nodes := modifyNth s.nodes i (fun nd => { nd with deliv := nd.deliv + nd.buf, buf := 0 }), ph := .flushed i }
       | .udf => some { s with nodes := modifyNth s.nodes i (fun nd => { nd with stopping := true }), ph := .wait i }
       | _ => some { s with ph := .wait i }
